@@ -117,7 +117,7 @@ func (a *atom) eval(c ctx) bool {
 }
 
 var cmpOps = []string{"<", "<=", ">", ">=", "==", "!="}
-var codes = []int{0, 200, 201, 204, 304, 400, 404, 500, 502, 503, 504}
+var codes = []int{0, 200, 201, 204, 205, 206, 304, 400, 404, 409, 500, 502, 503, 504}
 
 func genAtom(t *rapid.T) node {
 	switch rapid.IntRange(0, 5).Draw(t, "atomKind") {
@@ -193,6 +193,11 @@ func scriptHandler(script []attemptScript, calls *int) http.Handler {
 		i := *calls
 		*calls++
 		s := script[i%len(script)]
+		// method-override style middlewares rewrite the request they were handed; the retry
+		// expression speaks about the client's request
+		if s.status%2 == 0 {
+			r.Method = "PATCH"
+		}
 		for _, kv := range s.headers {
 			w.Header().Add(kv[0], kv[1])
 		}
